@@ -467,7 +467,7 @@ pub fn check_case(door: Door, b: &[u8], case: &mut Case) {
                 (a, b2) => case.fail("verdict-differs:Ipv4Extensions::from_slice", format!("struct ok={} slice ok={}", a.is_ok(), b2.is_ok())),
             }
         }
-        Door::Transport(_) => {}
+        Door::Transport(_) | Door::TcpOpts | Door::NdpOpts => {}
     }
 }
 
